@@ -291,6 +291,10 @@ def judge(prop_id, start_name, start, calls, ex, seq_outs):
             res_ok = any(k[0] == key[0] for k in seq_outs)
             sym = "final state matches no sequential order" if res_ok else "outcome matches no sequential order"
             problems[sym] = ([list(k[0]) for k in list(seq_outs)[:3]], list(key[0]) + list(key[1])[:6])
+        elif ex["exact"]:
+            # every sequential order ends with exact bookkeeping (C05.concrete_exact_history), so an inexact final
+            # directory matches no sequential order even when results and bindings do
+            problems["final reference bookkeeping matches no sequential order"] = ("exact", ex["exact"][:4])
     # model vs code under the same schedule
     if ex["model_results"] != [r if r is not None else "pending" for r in ex["results"]] and ex["outcome"] == "ok":
         dis["results"] = (ex["model_results"], ex["results"])
@@ -372,6 +376,8 @@ def run(prop_id, tier, seed, report, mp_mode=False):
         # the recorded windows of the known findings are replayed on every run
         for kf in known_windows(prop_id, menu):
             work.append(kf)
+        for ww in wakeup_windows(prop_id, menu):
+            work.append(ww)
         for item in work:
             if len(item) == 4:
                 sn, start, calls, chooser_factory = item
@@ -445,6 +451,43 @@ def run(prop_id, tier, seed, report, mp_mode=False):
             "samples": samples, "traces_validated_against_impl": stats["execs"], "distribution": stats["outcomes"],
             "blocked_acquire_attempts": stats["blocked"], "mp_mode": mp_mode, "systematic_combinations": n_combos,
             "exhaustive": False}
+
+
+def wakeup_windows(prop_id, menu):
+    """three workers on one shared condition: T0 stands inside a critical section on identifier A, T1 asks for A
+    and sleeps, T2 takes and releases an unrelated identifier B of the same class (its notify wakes T1). T1 must go
+    back to sleep until T0 is out: a waiter that does not re-test after waking enters the section beside T0."""
+    out = []
+
+    def script(inside):
+        def f():
+            return scripted_chooser([
+                (0, inside),                 # T0: inside the section
+                (1, lambda l: False),        # T1: runs until it sleeps on the same identifier
+                (2, lambda l: False),        # T2: unrelated identifier, runs to completion and notifies
+                (1, lambda l: False),        # T1: woken; re-tests and sleeps again (or, wrongly, proceeds)
+                (0, lambda l: False),        # T0: leaves the section
+            ])
+        return f
+    if prop_id in ("C07", "C08", "C16"):
+        both = [store_object(None, d(menu.X)), store_object(None, d(menu.Y))]
+        before_list = lambda l: l[0] == "rename" and "refs/cids" in str(l[1])      # noqa: E731
+        # cid class: two tags of one cid, a tag of another cid
+        out.append(("X-Y-unreferenced", both, [tag_object("p1", menu.cidX), tag_object("p2", menu.cidX),
+                                               tag_object("p3", menu.cidY)], script(before_list)))
+        # reference-pid class: two tags of one pid, a tag of another pid
+        out.append(("X-Y-unreferenced", both, [tag_object("p1", menu.cidX), tag_object("p1", menu.cidY),
+                                               tag_object("p3", menu.cidY)], script(before_list)))
+        # object-pid class: two deletes of one pid, a delete of another pid
+        out.append(("p1-p3-bound", [store_object("p1", d(menu.X)), store_object("p3", d(menu.Y))],
+                    [delete_object("p1"), delete_object("p1"), delete_object("p3")],
+                    script(lambda l: l[0] == "rename")))
+    if prop_id in ("C12", "C08", "C16"):
+        # document class: two stores of one document, a store of another document of the same pid
+        out.append(("doc-absent", [store_object("p1", d(menu.X))],
+                    [store_metadata("p1", d(menu.V1)), store_metadata("p1", d(menu.V2)), store_metadata("p1", d(menu.V2), "f2")],
+                    script(lambda l: l[0] == "rename")))
+    return out
 
 
 def known_windows(prop_id, menu):
